@@ -160,6 +160,8 @@ macro "keeps_c2" : tactic => `(tactic| repeat' (first
   | (apply Keeps.modify; intro s h; simp_all [ConstI, CoreConst, XSa.setKids]; done)
   | dsimp only))
 
+@[keepsConst] theorem cookieGate_c (x m) : Keeps (ConstI c) (cookieGate x m) := by
+  unfold cookieGate; keeps_c2
 @[keepsConst] theorem negotiateIkeRequest_c (sl m e) : Keeps (ConstI c) (negotiateIkeRequest sl m e) := by
   unfold negotiateIkeRequest; keeps_c2
 @[keepsConst] theorem processIkeSaInitRequest_c (m) : Keeps (ConstI c) (processIkeSaInitRequest m) := by
